@@ -108,7 +108,14 @@ def detect_fn(ctx):
             continue
         if any(callee_matches(t, r"validators::ValidatorDetector::detect$") for bi, t in b.calls()):
             cands.append(b)
-    return cands[0] if len(cands) == 1 else None
+    if len(cands) == 1:
+        return cands[0]
+    # the detect call sits in a helper / a method of a collector: the function that hands out both lists of
+    # validators is the one that runs the detection
+    outs = [b for b in ctx.reachable_bodies() if b.promoted is None and b.kind == "Fn"
+            and "dyn blockwatch::validators::ValidatorSync" in b.local_ty(0) and "dyn blockwatch::validators::ValidatorAsync" in b.local_ty(0)
+            and any(callee_matches(t, r"validators::ValidatorDetector::detect$") for x in ctx.region(b) for bi, t in x.calls())]
+    return outs[0] if len(outs) == 1 else None
 
 
 def _check_filter_cases(ctx, out, dv, rule="C14.filter"):
@@ -136,6 +143,12 @@ def _check_filter_cases(ctx, out, dv, rule="C14.filter"):
         return
     factory_calls = {bi for bi, t in v.calls() if not t.get("def") and not t.get("res") and bi in cfg.reachable}
     factory_calls |= {bi for bi, t in v.calls() if re.search(r"ops::(Fn|FnMut|FnOnce)<.*>>?::call(_mut|_once)?$", callee_name(t)) and "ValidatorDetector" in (t.get("dest_ty") or "")}
+
+    def _is_factory_value(op):
+        pl = util.op_place(op)
+        return pl is not None and "ValidatorDetector" in (v.local_ty(pl["l"]) or "") and "fn(" in (v.local_ty(pl["l"]) or "")
+    # (`selected.then(factory)`: the combinator's expansion calls the function value it was handed)
+    factory_calls |= {bi for bi, t in v.calls() if t.get("synthetic") and re.search(r"ops::FnOnce::call_once$", t.get("def") or "") and t["args"] and _is_factory_value(t["args"][0]) and bi in cfg.reachable}
     stop_blocks = {bi for bi, t in v.calls() if callee_matches(t, r"validators::ValidatorDetector::detect$")}
     if not factory_calls:
         out.viol(rule, "%s|factory" % rule, ctx.where(dv), "no call of a detector factory found in the detection function")
